@@ -200,7 +200,7 @@ Section Resolve.
           else (f, Some (with_span (mspan mi)
                            (custom ("Options `" ++ t ++ "` and `" ++ t0 ++ "` are mutually exclusive"))))
       | None =>
-          match conv TCallable mi with
+          match conv TPath mi with
           | Ok _ => (set_post (Some t), None)
           | Err e => (f, Some e)
           | Panic _ => (f, Some (custom "model: map"))
@@ -499,7 +499,7 @@ Section Resolve.
           else (c, Some (with_span (mspan mi)
                            (custom ("Options `" ++ t ++ "` and `" ++ t0 ++ "` are mutually exclusive"))))
       | None =>
-          match conv TCallable mi with
+          match conv TPath mi with
           | Ok _ => (upd (c_default c) (c_rename_all c) (Some t) (c_bound c) (c_auk c), None)
           | Err e => (c, Some e)
           | Panic _ => (c, Some (custom "model: map"))
@@ -693,7 +693,8 @@ Section Resolve.
           else
             match c_from_word c with
             | Some sp =>
-                match style, rfs with
+                (* the check looks at the fields that were read successfully *)
+                match style, b_fields b with
                 | StUnit, _ =>
                     [with_span sp (custom "`from_word` cannot be used on unit structs because it conflicts with the generated impl")]
                 | StTuple, [_] =>
